@@ -322,11 +322,13 @@ def r4_constant_map(ctx):
   sub._cache = ctx._cache  # pylint: disable=protected-access
   c14.r2_fresh_helpers(sub)
   b_viol = [v for v in sub.violations if 'ModelModifier' in v.message or 'ModelModifier' in v.construct]
-  b_ok = not b_viol
+  shared_cls = [h for h in c14.shared_mutable_class_attrs(ctx) if h[0].name == 'ModelModifier']
+  b_ok = not b_viol and not shared_cls
   w = b_viol[0] if b_viol else None
   ctx.check(R, a_ok or b_ok, (w.where if w else pc.node), pc, 'constant map per call',
             'the constant map is only ever appended to and the ModelModifier object outlives one quantize() call'
-            + (f' ({w.message})' if w else '') + ': a later large-model serialisation reads the constants of an earlier quantization')
+            + (f' ({w.message})' if w else '') + (f' (`{shared_cls[0][1]}` is a class-level object shared by all ModelModifier instances)' if shared_cls else '')
+            + ': a later large-model serialisation reads the constants of an earlier quantization')
   # the large-model passes index the map with the enumerating index of the same buffer list
   f = ctx.repo.func(f'{MM}._serialize_large_model')
   for l in [n for n in f.node.body if isinstance(n, ast.For)][1:]:
